@@ -3,7 +3,7 @@
     Model: Model/Watcher.v; proofs: Proofs/Watcher.v.
     [sel_pure cur next L] is the set of files scan keeps for listing L, [nv e] = versionFromPath of e's path,
     [scan_pure] is scan's result ([C19_scan_never_panics] shows scan = Ok scan_pure on EVERY input). *)
-From ZV Require Import Lib.Base Model.Watcher Proofs.Watcher Model.WatchLoop Proofs.WatchLoop.
+From ZV Require Import Lib.Base Model.Watcher Proofs.Watcher Model.WatchLoop Proofs.WatchLoop Proofs.WatchCompose.
 
 (** versionFromPath and DirectoryWatcher.scan terminate without panic on every path / listing / state
     (after fix 5288900; before it C19_version_from_path_no_panic_refuted held: "x_.z" panicked). *)
@@ -118,6 +118,45 @@ Theorem C19_watch_loop_progress : forall (es : list levent) (s : lstate),
 Proof. exact watcher_progress. Qed.
 Print Assumptions C19_watch_loop_progress.
 
+(** ---- the two models composed (Proofs/WatchCompose.v): the loop carries the current directory listing, a change
+    installs a new (arbitrary) listing, a scan reads the directory in one step at its start; [c_hist c] = the
+    listings read by the scans so far, so the watcher's state is [scans cur next w_init (c_hist c)].
+    The property's second sentence: for EVERY interleaving of directory changes with the watcher, if no change
+    races with the startup, fsnotify drops no event and a file never changes content while keeping its effective
+    mtime (chain_ok over the listings the scans read), then whenever the watcher is quiescent the loaded set is
+    exactly what the CURRENT directory requires, and another scan would change nothing. *)
+Theorem C19_quiescent_loaded_equals_disk :
+  forall (cur next : Z) (L0 : list fent) (pre post : list cevent) (c : cstate),
+  crun (c_init L0) (pre ++ post) = Some c ->
+  existsb is_change (map fst pre) = false -> existsb is_watch_add (map fst pre) = true ->
+  existsb is_drop (map fst post) = false ->
+  quiescent (c_loop c) = true ->
+  chain_ok cur next [] (c_hist c) ->
+  let st := scans cur next w_init (c_hist c) in
+  let L := c_dir c in
+  NoDup (keys (w_loaded st)) /\
+  (forall k, In k (keys (w_loaded st)) -> In k (map f_path (sel_pure cur next L))) /\
+  (forall e, In e (sel_pure cur next L) -> f_loadable e = true -> lookup (f_path e) (w_loaded st) = Some (f_content e)) /\
+  scan cur next L st = Ok (mkOut [] [] [] st).
+Proof. exact quiescent_loaded_equals_disk. Qed.
+Print Assumptions C19_quiescent_loaded_equals_disk.
+
+(** ... and after a tick the same holds whatever happened before (startup races, dropped events). *)
+Theorem C19_after_tick_loaded_equals_disk :
+  forall (cur next : Z) (L0 : list fent) (a b : list cevent) (Lt : list fent) (c : cstate),
+  crun (c_init L0) (a ++ (ETick, Lt) :: b) = Some c ->
+  existsb is_change (map fst b) = false ->
+  quiescent (c_loop c) = true ->
+  chain_ok cur next [] (c_hist c) ->
+  let st := scans cur next w_init (c_hist c) in
+  let L := c_dir c in
+  NoDup (keys (w_loaded st)) /\
+  (forall k, In k (keys (w_loaded st)) -> In k (map f_path (sel_pure cur next L))) /\
+  (forall e, In e (sel_pure cur next L) -> f_loadable e = true -> lookup (f_path e) (w_loaded st) = Some (f_content e)) /\
+  scan cur next L st = Ok (mkOut [] [] [] st).
+Proof. exact tick_loaded_equals_disk. Qed.
+Print Assumptions C19_after_tick_loaded_equals_disk.
+
 (** ---- non-vacuity *)
 Definition s (l : list N) := l.
 Definition pA16 : path := [97; 95; 118; 49; 54; 46; 48; 46; 122; 111; 101; 107; 116]%N.   (* a_v16.0.zoekt *)
@@ -171,3 +210,13 @@ Proof. vm_compute. split; [eexists; split; reflexivity|repeat split]. Qed.
 Example ex_loop_progress_nontrivial :
   exists s, lrun l_init [EInitScanEnd; EWatchAdd; EChange 2; EDeliver] = Some s /\ quiescent s = false.
 Proof. vm_compute. eexists; split; reflexivity. Qed.
+
+(** the composed theorem's hypotheses are satisfiable: directory exL1 at start, changed to exL2 and (while the scan
+    of exL2 is running) to exL3; two scans follow; the scans read exactly [exL1; exL2; exL3] (ex_chain_ok) *)
+Example ex_composed_run :
+  let pre : list cevent := [(EInitScanEnd, []); (EWatchAdd, [])] in
+  let post : list cevent := [(EChange 0, exL2); (EDeliver, []); (EScanStart, []); (EChange 1, exL3); (EScanEnd, []);
+                             (EDeliver, []); (EDeliver, []); (EScanStart, []); (EScanEnd, [])] in
+  exists c, crun (c_init exL1) (pre ++ post) = Some c /\ quiescent (c_loop c) = true /\
+            c_hist c = [exL1; exL2] ++ [exL3] /\ c_dir c = exL3.
+Proof. vm_compute. eexists. repeat split. Qed.
